@@ -31,6 +31,16 @@ pub enum Value {
     Arr(Vec<Value>),
     Obj(BTreeMap<String, Value>),
     Tag(u32),
+    /// an instance of one typed-array class (index into `TYPED_KINDS`); the classes are pairwise disjoint
+    Typed(u8),
+}
+
+pub const TYPED_KINDS: [beff_core::ast::runtype::TypedArrayKind; 11] = {
+    use beff_core::ast::runtype::TypedArrayKind::*;
+    [Uint8Array, Uint8ClampedArray, Uint16Array, Uint32Array, Int8Array, Int16Array, Int32Array, Float32Array, Float64Array, BigInt64Array, BigUint64Array]
+};
+pub fn typed_index(k: &beff_core::ast::runtype::TypedArrayKind) -> u8 {
+    TYPED_KINDS.iter().position(|x| x == k).unwrap() as u8
 }
 
 impl Value {
@@ -44,6 +54,7 @@ impl Value {
             Value::Arr(a) => format!("[{}]", a.iter().map(|x| x.show()).collect::<Vec<_>>().join(", ")),
             Value::Obj(o) => format!("{{{}}}", o.iter().map(|(k, v)| format!("{:?}: {}", k, v.show())).collect::<Vec<_>>().join(", ")),
             Value::Tag(t) => format!("<tag {}>", t),
+            Value::Typed(k) => format!("<{:?}>", TYPED_KINDS[*k as usize]),
         }
     }
     pub fn depth(&self) -> usize {
@@ -175,6 +186,7 @@ pub fn rt_open(t: &Runtype, defs: &Defs, v: &Value) -> R<bool> {
         RuntypeKind::AnyArrayLike => matches!(v, Value::Arr(_)),
         RuntypeKind::BigInt => *v == Value::Tag(SubTypeTag::BigInt.code()),
         RuntypeKind::Date => *v == Value::Tag(SubTypeTag::Date.code()),
+        RuntypeKind::TypedArray(k) => *v == Value::Typed(typed_index(k)),
         RuntypeKind::TplLitType(tpl) => match v {
             Value::Str(x) => tpl_member(&tpl.0, x),
             _ => false,
@@ -821,6 +833,9 @@ impl<'a> Enumerator<'a> {
             RuntypeKind::Never => vec![],
             RuntypeKind::Object { .. } | RuntypeKind::Array(_) | RuntypeKind::Tuple { .. } | RuntypeKind::AnyArrayLike => vec![], // mixed with a different kind: empty
             RuntypeKind::Undefined | RuntypeKind::Void => vec![Value::Absent],
+            RuntypeKind::BigInt => vec![Value::Tag(SubTypeTag::BigInt.code())],
+            RuntypeKind::Date => vec![Value::Tag(SubTypeTag::Date.code())],
+            RuntypeKind::TypedArray(k) => vec![Value::Typed(typed_index(k))],
             other => return unsup(&format!("enumerate:{}", kind_name(other))),
         };
         let mut out = vec![];
@@ -856,6 +871,7 @@ pub fn st_member(t: &SemType, ctx: &SemTypeContext, v: &Value) -> R<bool> {
         Value::Tag(bit) => {
             return Ok((t.all & bit) != 0);
         }
+        Value::Typed(_) => SubTypeTag::TypedArray,
     };
     if (t.all & tag.code()) != 0 {
         return Ok(true);
@@ -897,6 +913,9 @@ pub fn st_member(t: &SemType, ctx: &SemTypeContext, v: &Value) -> R<bool> {
             }
             (ProperSubtype::Mapping(bdd), Value::Obj(_)) => return eval_bdd(bdd, ctx, v),
             (ProperSubtype::List(bdd), Value::Arr(_)) => return eval_bdd(bdd, ctx, v),
+            (ProperSubtype::TypedArray { allowed, values }, Value::Typed(k)) => {
+                return Ok(values.contains(&TYPED_KINDS[*k as usize]) == *allowed);
+            }
             (ProperSubtype::VoidUndefined { allowed, values }, Value::Absent) => {
                 // `undefined` materialises "nothing here": read on the Absent pseudo value
                 let has = values.contains(&VoidUndefinedSubtype::Undefined) || values.contains(&VoidUndefinedSubtype::Void);
